@@ -99,7 +99,7 @@ def explore(ctx):
         check_rows('parse', '* | parse "i=* x=*" as i, x', ll, lambda r: r.get('x'), dict(enumerate(want)), binary=binary)
         # 3. noconvert keeps the text; num() coerces it to the same number
         check_rows('noconvert+num', '* | parse "i=* x=*" as i, x noconvert | num(x) as y | num(i) as i', ll, lambda r: r.get('y'),
-                   {i: aggoracle.from_float(float(show(w))) if not isinstance(w, int) else aggoracle.from_float(float(w)) for i, w in enumerate(want)}, binary=binary)
+                   {i: aggoracle.from_float(float(show(w))) if not isinstance(w, int) else w for i, w in enumerate(want)}, binary=binary)
         # 4. JSON strings that look like numbers coerce to that number in aggregates (one group per row)
         sl = ['{"i": %d, "s": "%s"}\n' % (i, t) for i, (t, _isint) in enumerate(lits)]
         coerced = {i: aggoracle.from_float(float(w)) if isinstance(w, int) else w for i, w in enumerate(want)}
@@ -113,7 +113,13 @@ def explore(ctx):
         for fn in ('sum', 'max'):
             check_rows('%s(padded string)' % fn, '* | json | %s(s) as y by i' % fn, slp, lambda r: r.get('y'), exp, binary=binary)
         check_rows('num(padded string)', '* | json | num(s) as y | fields i, y', slp, lambda r: r.get('y'),
-                   {i: (aggoracle.from_float(float(w)) if isinstance(w, int) else w) for i, w in enumerate(want)}, binary=binary)
+                   dict(enumerate(want)), binary=binary)        # num() of integer text is that integer, exactly (43e6167)
+        # 4c. the integer-to-integer functions on integers of any size: exact
+        big = [(i, int(t)) for i, (t, isint) in enumerate(lits) if isint and I64_MIN <= int(t) <= I64_MAX]
+        bl = ['{"i": %d, "x": %d}\n' % (i, v) for i, v in big]
+        for fn, f in (('num', lambda v: v), ('abs', abs), ('ceil', lambda v: v), ('floor', lambda v: v), ('round', lambda v: v)):
+            check_rows('%s(integer)' % fn, '* | json | %s(x) as y | fields i, y' % fn, bl, lambda r: r.get('y'),
+                       {i: (f(v) if f(v) <= I64_MAX else aggoracle.from_float(float(f(v)))) for i, v in big}, binary=binary)
     # 5. integer arithmetic: exact inside i64, a float (never a wrapped / saturated int) outside
     ints = [0, 1, -1, 2, 3, 10**9, 2**31, 2**32, 2**53, 2**62, 2**63 - 1, -2**63, -2**62, 3037000500, -3037000500, 4294967296, 9223372036854775806]
     al = []
